@@ -25,14 +25,34 @@ META = {
         ('events_lib', 'SimpleEventSequence.increase_resolution'),
         ('events_lib', 'SimpleEventSequence.__deepcopy__'),
         ('events_lib', 'SimpleEventSequence._from_event_list'),
+        ('events_lib', 'SimpleEventSequence.__init__'),
+        ('events_lib', 'SimpleEventSequence._reset'),
+        ('events_lib', 'SimpleEventSequence.__eq__'),
+        ('events_lib', 'SimpleEventSequence.steps'),
         ('melodies_lib', 'Melody.set_length'),
         ('melodies_lib', 'Melody._from_event_list'),
+        ('melodies_lib', 'Melody.append'),
+        ('melodies_lib', 'Melody.increase_resolution'),
+        ('drums_lib', 'DrumTrack.append'),
+        ('drums_lib', 'DrumTrack._from_event_list'),
+        ('drums_lib', 'DrumTrack.increase_resolution'),
+        ('lead_sheets_lib', 'LeadSheet.__init__'),
+        ('lead_sheets_lib', 'LeadSheet._from_melody_and_chords'),
+        ('lead_sheets_lib', 'LeadSheet.increase_resolution'),
+        ('lead_sheets_lib', 'LeadSheet.__deepcopy__'),
         ('lead_sheets_lib', 'LeadSheet.__iter__'),
         ('lead_sheets_lib', 'LeadSheet.__getitem__'),
         ('lead_sheets_lib', 'LeadSheet.set_length'),
         ('lead_sheets_lib', 'LeadSheet.append'),
         ('pianoroll_lib', 'PianorollSequence.set_length'),
         ('pianoroll_lib', 'PianorollSequence.append'),
+        ('pianoroll_lib', 'PianorollSequence.__init__'),
+        ('performance_lib', 'Performance.__init__'),
+        ('performance_lib', 'MetricPerformance.__init__'),
+        ('performance_lib', 'BasePerformance.append'),
+        ('performance_lib', 'NotePerformance.append'),
+        ('performance_lib', 'NotePerformance.num_steps'),
+        ('performance_lib', 'NotePerformance.steps'),
         ('performance_lib', 'BasePerformance._append_steps'),
         ('performance_lib', 'BasePerformance._trim_steps'),
         ('performance_lib', 'BasePerformance.set_length'),
@@ -47,12 +67,32 @@ META = {
         'increase_resolution factor in [1,3]',
         'Performance: max_shift_steps in [1,1000], set_length target at most '
         '3*max_shift_steps beyond the current length',
-        'set_length(from_left=True) is documented as unsupported for '
-        'PianorollSequence and Performance (NotImplementedError) and is not '
-        'exercised there; NotePerformance.set_length is a documented no-op',
+        'set_length(from_left=True) is unsupported for PianorollSequence and '
+        'Performance: the harness accepts a NotImplementedError that changes '
+        'nothing, or a correct left-side edit, never an edit of the right '
+        'side; NotePerformance.set_length is a documented no-op (not called)',
+        'padding: pad event of the class; Melody grown on the right gets '
+        'NOTE_OFF first iff a note still sounds; increase_resolution filler: '
+        'repeat (base, chords), NO_EVENT (melody), frozenset() (drums), '
+        'fill_event if given',
+        'omitted keyword arguments: start_step=0, DEFAULT_STEPS_PER_BAR/'
+        'QUARTER, from_left=False, DEFAULT_MAX_SHIFT_STEPS/QUARTERS, '
+        'program/is_drum None; re-initialisation = _from_event_list / _reset '
+        'on a populated object',
+        'Melody pre-states built by append may start with NOTE_OFF; copies '
+        'and slices are compared up to the documented constructor cleaning',
+        'strided slices (step 2, -1): invariant, content and start_step = '
+        'step of the first element picked; drum/chord events are fixed '
+        'concrete values; invalid events: melody ints outside [-2,127], '
+        'drum non-frozensets and pitches -1/128',
+        'Pianoroll shift_range: pitch window and pitches in [0,6]; '
+        'MetricPerformance max_shift_quarters in [1,8]; NotePerformance built '
+        'from an empty quantized sequence plus appended tuples (shifts and '
+        'durations <= 1000), num_steps only via end-start and step containment',
     ],
     'bounds': {
-        'quick': 'L<=3 events for simple sequences, L<=2 for performances',
+        'quick': 'L<=3 events for simple sequences, L<=2 for performances, '
+                 'lead sheets, pianorolls and NotePerformance',
         'thorough': 'L<=4 / L<=3',
     },
     'outside': ['longer event lists (the step is inductive in the history, '
@@ -131,6 +171,30 @@ def _ev_eq(c, a, b):
   return c.eq(a, b)
 
 
+def _res_kept(c, seq, spb, spq):
+  return c.And(c.eq(seq.steps_per_bar, spb), c.eq(seq.steps_per_quarter, spq))
+
+
+def _sounding(c, ev):
+  """A note still sounds at the end of the melody events `ev`: the last event
+  that is not NO_EVENT exists and is a pitch (class docstring of Melody)."""
+  r = False
+  for e in ev:
+    r = c.If(c.eq(e, -2), r, e >= 0)
+  return r
+
+
+def _clean(c, want):
+  """Documented constructor behaviour of Melody: note-offs before the first
+  note become no-events."""
+  cleaned = list(want)
+  for i, e in enumerate(want):
+    if not bool(c.Or(c.eq(e, -1), c.eq(e, -2))):
+      break
+    cleaned[i] = -2
+  return cleaned
+
+
 def h_append(c):
   kind, L = c.params['kind'], c.params['L']
   seq, ev, start, spb, spq, pad = _make(c, kind, L)
@@ -144,13 +208,19 @@ def h_append(c):
           'append: old events kept, new one last')
   c.check(c.And(c.eq(seq.start_step, start), c.eq(seq.end_step, start + L + 1)),
           'append: start kept, end + 1')
+  c.check(_res_kept(c, seq, spb, spq), 'append keeps the resolution')
 
 
 def h_set_length(c):
   kind, L, left = c.params['kind'], c.params['L'], c.params['from_left']
   seq, ev, start, spb, spq, pad = _make(c, kind, L)
   n = c.int('n', 0, L + 2)
-  seq.set_length(n, from_left=left)
+  if c.params.get('omit_kw'):
+    # from_left is optional and defaults to the right side
+    assert not left
+    seq.set_length(n)
+  else:
+    seq.set_length(n, from_left=left)
   nn = c.concretize(n)
   _inv(c, seq, kind, 'set_length')
   c.check(len(seq) == nn, 'set_length(n) yields exactly n steps')
@@ -168,6 +238,21 @@ def h_set_length(c):
     c.check(c.And([_ev_eq(c, a, b) for a, b in zip(now[:keep], ev[:keep])]
                   or [True]),
             'set_length keeps the events of the retained (left) side')
+  grow = nn - L
+  if grow > 0:
+    want_pad = [pad] * grow
+    if left:
+      padded = now[:grow]
+    else:
+      padded = now[L:]
+      if kind == 'melody':
+        # "ends any sustained notes and adds NO_EVENT steps for padding"
+        want_pad[0] = c.If(_sounding(c, ev), -1, -2)
+    c.check(len(padded) == grow and
+            bool(c.And([_ev_eq(c, a, b) for a, b in zip(padded, want_pad)])),
+            'set_length pads with the pad event (a melody grown on the right '
+            'first ends a sustained note)')
+  c.check(_res_kept(c, seq, spb, spq), 'set_length keeps the resolution')
   c.cover('set_length to zero', nn == 0)
   c.cover('set_length grows', nn > L)
 
@@ -182,20 +267,23 @@ def h_slice(c):
   seq, ev, start, spb, spq, pad = _make(c, kind, L)
   a = c.int('a', -5, 5) if c.params['a'] else None
   b = c.int('b', -5, 5) if c.params['b'] else None
-  sub = seq[a:b]
-  sl = _conc_slice(c, a, b)
+  st = c.params.get('step')
+  if st is None:
+    sub = seq[a:b]
+    sl = _conc_slice(c, a, b)
+  else:
+    # a slice with a stride: still a sequence whose range matches its length
+    # and that starts at the step of its first element
+    sub = seq[a:b:st]
+    sl = _conc_slice(c, a, b)
+    sl = slice(sl.start, sl.stop, st)
   c.check(type(sub) is type(seq), 'slice has the same class')
   _inv(c, sub, kind, 'slice')
   want = ev[sl]
   if kind == 'melody':
     # a Melody never starts with note-offs: the constructor (documented)
     # turns leading note-offs into no-events
-    cleaned = list(want)
-    for i, e in enumerate(want):
-      if not bool(c.Or(c.eq(e, -1), c.eq(e, -2))):
-        break
-      cleaned[i] = -2
-    want = cleaned
+    want = _clean(c, want)
   c.check(len(sub) == len(want) and
           bool(c.And([_ev_eq(c, x, y) for x, y in zip(list(sub), want)]
                      or [True])), 'slice holds the sliced events')
@@ -207,6 +295,14 @@ def h_slice(c):
   c.check(c.And(c.eq(sub.steps_per_bar, spb), c.eq(sub.steps_per_quarter, spq)),
           'slice keeps the resolution')
   _inv(c, seq, kind, 'slice leaves the original')
+  c.check(len(seq) == L and
+          bool(c.And([_ev_eq(c, x, y) for x, y in zip(list(seq), ev)]
+                     or [True])), 'slice leaves the events of the original')
+  # the slice pads with the pad event of its class
+  m = len(sub)
+  sub.set_length(m + 1, from_left=True)
+  c.check(len(sub) == m + 1 and bool(_ev_eq(c, sub[0], pad)),
+          'a slice pads with the same pad event')
 
 
 def h_index(c):
@@ -221,7 +317,14 @@ def h_resolution(c):
   kind, L = c.params['kind'], c.params['L']
   seq, ev, start, spb, spq, pad = _make(c, kind, L)
   k = c.int('k', 1, 3)
-  seq.increase_resolution(k)
+  fill = c.params.get('fill')
+  if fill is not None:
+    # base class with an explicit fill event
+    assert kind == 'simple'
+    fill = c.int('fill', 0, 9)
+    seq.increase_resolution(k, fill_event=fill)
+  else:
+    seq.increase_resolution(k)
   kk = c.concretize(k)
   _inv(c, seq, kind, 'increase_resolution')
   c.check(len(seq) == L * kk, 'increase_resolution: k times as many events')
@@ -233,6 +336,24 @@ def h_resolution(c):
   now = list(seq)
   c.check(c.And([_ev_eq(c, now[i * kk], ev[i]) for i in range(L)] or [True]),
           'increase_resolution: every event at k times its index')
+  # the k-1 cells after each event: the event repeated (base class default,
+  # chords), NO_EVENT for a melody, the empty set for drums, `fill_event` if
+  # given
+  conds = []
+  for i in range(L):
+    for j in range(1, kk):
+      if fill is not None:
+        w = fill
+      elif kind == 'melody':
+        w = -2
+      elif kind == 'drums':
+        w = frozenset()
+      else:
+        w = ev[i]
+      conds.append(_ev_eq(c, now[i * kk + j], w))
+  c.check(c.And(conds or [True]),
+          'increase_resolution: the added cells hold the documented filler')
+  c.cover('increase_resolution adds cells', kk > 1 and L > 0)
 
 
 def h_deepcopy(c):
@@ -241,9 +362,24 @@ def h_deepcopy(c):
   cp = copy.deepcopy(seq)
   _inv(c, cp, kind, 'deepcopy')
   c.check(type(cp) is type(seq) and cp is not seq, 'deepcopy: new object')
-  c.check(c.And([_ev_eq(c, a, b) for a, b in zip(list(cp), ev)] +
+  want = ev
+  if kind == 'melody' and c.params.get('built'):
+    # a melody built by appending may start with note-offs; the copy goes
+    # through the constructor, which (documented) turns them into no-events
+    want = _clean(c, ev)
+  c.check(c.And([_ev_eq(c, a, b) for a, b in zip(list(cp), want)] +
                 [len(cp) == L, c.eq(cp.start_step, start),
                  c.eq(cp.end_step, start + L)]), 'deepcopy: equal content')
+  c.check(_res_kept(c, cp, spb, spq), 'deepcopy keeps the resolution')
+  if not c.params.get('built'):
+    c.check(bool(cp == seq) and bool(seq == cp),
+            'a deep copy compares equal to the original')
+  # the copy pads with the pad event of the original
+  cp2 = copy.deepcopy(seq)
+  cp2.set_length(L + 2, from_left=True)
+  c.check(len(cp2) == L + 2 and
+          bool(c.And(_ev_eq(c, cp2[0], pad), _ev_eq(c, cp2[1], pad))),
+          'a deep copy pads with the same pad event')
   cp.append(pad)
   cp.set_length(max(L - 1, 0))
   cp.append(pad)
@@ -257,12 +393,158 @@ def h_steps(c):
   kind, L = c.params['kind'], c.params['L']
   start = c.int('start', -3, 3)
   seq, ev, start, spb, spq, pad = _make(c, kind, L, start=start)
-  n = c.int('n', 0, L + 1)
-  seq.set_length(n, from_left=c.params['from_left'])
+  op = c.params.get('op', 'set_length')
+  if op == 'set_length':
+    n = c.int('n', 0, L + 1)
+    seq.set_length(n, from_left=c.params['from_left'])
+  elif op == 'append':
+    seq.append(pad)
+  elif op == 'resolution':
+    seq.increase_resolution(c.int('k', 1, 3))
+  elif op == 'slice':
+    seq = seq[c.int('a', -4, 4):c.int('b', -4, 4)]
   st = seq.steps
   c.check(len(st) == len(seq), 'steps lists one step per event')
   c.check(all(bool(c.eq(s, seq.start_step + i)) for i, s in enumerate(st)),
           'steps are consecutive from start_step')
+
+
+def h_defaults(c):
+  """Constructors and _from_event_list with their keyword arguments omitted:
+  start_step=0 and the library-wide default resolution."""
+  kind, L = c.params['kind'], c.params['L']
+  cons = c.mod('constants')
+  dspb, dspq = cons.DEFAULT_STEPS_PER_BAR, cons.DEFAULT_STEPS_PER_QUARTER
+  given = c.params['events']
+  if kind == 'melody':
+    cls, kw = c.mod('melodies_lib').Melody, {}
+    ev = [c.int('e%d' % i, -2, 127) for i in range(L)]
+    new = c.int('new', -2, 127)
+  elif kind == 'drums':
+    cls, kw = c.mod('drums_lib').DrumTrack, {}
+    ev = [_DRUMS[i % 4] for i in range(L)]
+    new = _DRUMS[1]
+  elif kind == 'chords':
+    cls, kw = c.mod('chords_lib').ChordProgression, {}
+    ev = [_CHORDS[i % 4] for i in range(L)]
+    new = 'F'
+  else:
+    cls, kw = c.mod('events_lib').SimpleEventSequence, {'pad_event': 0}
+    ev = [c.int('e%d' % i, 0, 9) for i in range(L)]
+    new = c.int('new', 0, 9)
+  if given:
+    seq = cls(events=list(ev), **kw)
+  else:
+    seq = cls(**kw)
+    c.check(len(seq) == 0 and bool(c.eq(seq.end_step, 0)),
+            'a sequence created without arguments is empty')
+    for e in ev:
+      seq.append(e)
+  ev = list(seq)
+  _inv(c, seq, kind, 'defaults')
+  c.check(c.And(c.eq(seq.start_step, 0), c.eq(seq.end_step, L), len(seq) == L),
+          'start_step defaults to 0')
+  c.check(_res_kept(c, seq, dspb, dspq),
+          'the resolution defaults to DEFAULT_STEPS_PER_BAR / _PER_QUARTER')
+  seq.append(new)
+  _inv(c, seq, kind, 'defaults, append')
+  c.check(c.And(c.eq(seq.start_step, 0), c.eq(seq.end_step, L + 1),
+                _ev_eq(c, seq[L], new)), 'defaults: append')
+  seq.set_length(L + 3, from_left=True)
+  _inv(c, seq, kind, 'defaults, set_length')
+  c.check(c.And(c.eq(seq.start_step, -2), c.eq(seq.end_step, L + 1)),
+          'defaults: set_length from the left moves the start step below 0')
+
+
+def h_reinit(c):
+  """Re-initialisation of a populated sequence: _from_event_list (with and
+  without its keyword arguments) and _reset."""
+  kind, L, L2 = c.params['kind'], c.params['L'], c.params['L2']
+  seq, ev, start, spb, spq, pad = _make(c, kind, L)
+  cons = c.mod('constants')
+  dspb, dspq = cons.DEFAULT_STEPS_PER_BAR, cons.DEFAULT_STEPS_PER_QUARTER
+  how = c.params['how']
+  if how == 'reset':
+    seq._reset()
+    _inv(c, seq, kind, 'reset')
+    c.check(c.And(len(seq) == 0, c.eq(seq.start_step, 0),
+                  c.eq(seq.end_step, 0)), 'reset: empty sequence at step 0')
+    c.check(_res_kept(c, seq, dspb, dspq), 'reset: default resolution')
+    want, s2 = [], 0
+  else:
+    if kind == 'melody':
+      ev2 = [c.int('f%d' % i, -2, 127) for i in range(L2)]
+    elif kind == 'drums':
+      ev2 = [_DRUMS[(i + 1) % 4] for i in range(L2)]
+    elif kind == 'chords':
+      ev2 = [_CHORDS[(i + 1) % 4] for i in range(L2)]
+    else:
+      ev2 = [c.int('f%d' % i, 0, 9) for i in range(L2)]
+    arg = list(ev2)
+    if how == 'kw':
+      s2, b2, q2 = c.int('start2'), c.int('spb2', 1, 64), c.int('spq2', 1, 24)
+      seq._from_event_list(arg, start_step=s2, steps_per_bar=b2,
+                           steps_per_quarter=q2)
+    else:
+      s2, b2, q2 = 0, dspb, dspq
+      seq._from_event_list(arg)
+    _inv(c, seq, kind, 're-initialisation')
+    want = _clean(c, ev2) if kind == 'melody' else ev2
+    c.check(len(seq) == L2 and
+            bool(c.And([_ev_eq(c, x, y) for x, y in zip(list(seq), want)]
+                       or [True])),
+            're-initialisation: exactly the new events')
+    c.check(c.And(c.eq(seq.start_step, s2), c.eq(seq.end_step, s2 + L2)),
+            're-initialisation: the step range is that of the new events')
+    c.check(_res_kept(c, seq, b2, q2),
+            're-initialisation: resolution as given / default')
+  # and the object keeps working: one more edit from the new state
+  seq.set_length(len(want) + 1, from_left=True)
+  _inv(c, seq, kind, 're-initialisation, then set_length')
+  c.check(c.And(len(seq) == len(want) + 1, c.eq(seq.end_step, s2 + len(want)),
+                c.eq(seq.start_step, s2 - 1), _ev_eq(c, seq[0], pad)),
+          're-initialisation, then set_length from the left')
+
+
+def h_reject(c):
+  """Invalid events are rejected by append, by the constructor and by
+  _from_event_list, and a rejected append leaves the sequence as it was."""
+  kind, L = c.params['kind'], c.params['L']
+  seq, ev, start, spb, spq, pad = _make(c, kind, L)
+  if kind == 'melody':
+    bad = c.int('bad', -40, 170)
+    c.assume(c.Or(bad < -2, bad > 127))
+    cls = c.mod('melodies_lib').Melody
+    ok = [c.choice('okv', [-2, -1, 0, 127])]
+  else:
+    bad = c.choice('bad', [frozenset([-1]), frozenset([36, 128]), (36,), 36,
+                           set([36])])
+    cls = c.mod('drums_lib').DrumTrack
+    ok = [c.choice('okv', [frozenset([0]), frozenset([127, 0]), frozenset()])]
+  res, err = c.raises(seq.append, bad)
+  c.check(isinstance(err, ValueError), 'append rejects an invalid event')
+  _inv(c, seq, kind, 'rejected append')
+  c.check(c.And([len(seq) == L, c.eq(seq.start_step, start),
+                 c.eq(seq.end_step, start + L)] +
+                [_ev_eq(c, x, y) for x, y in zip(list(seq), ev)]),
+          'a rejected append leaves the sequence as it was')
+  pos = c.concretize(c.int('pos', 0, L))
+  lst = list(ev)
+  lst.insert(pos, bad)
+  res, err = c.raises(cls, lst, start_step=start, steps_per_bar=spb,
+                      steps_per_quarter=spq)
+  c.check(isinstance(err, ValueError),
+          'the constructor rejects an invalid event at any position')
+  res, err = c.raises(seq._from_event_list, lst)
+  c.check(isinstance(err, ValueError),
+          '_from_event_list rejects an invalid event at any position')
+  # the boundary values are valid events
+  res, err = c.raises(seq.append, ok[0])
+  c.check(err is None and len(seq) == L + 1 and
+          bool(_ev_eq(c, seq[L], ok[0])), 'boundary events are accepted')
+  res, err = c.raises(cls, list(ev) + ok)
+  c.check(err is None and len(res) == L + 1,
+          'the constructor accepts boundary events')
 
 
 def h_leadsheet(c):
@@ -282,8 +564,14 @@ def h_leadsheet(c):
       cl.ChordProgression(list(ch), start_step=start, steps_per_bar=spb,
                           steps_per_quarter=spq))
   ev = list(sheet.melody)
+  rs = [spb, spq]  # the resolution the sheet must report
 
   def inv(label):
+    c.check(c.And(c.eq(sheet.steps_per_bar, rs[0]),
+                  c.eq(sheet.steps_per_quarter, rs[1]),
+                  _res_kept(c, sheet.melody, rs[0], rs[1]),
+                  _res_kept(c, sheet.chords, rs[0], rs[1])),
+            label + ': lead sheet, melody and chords report the resolution')
     c.check(c.And(c.eq(len(sheet), sheet.end_step - sheet.start_step),
                   len(sheet.melody) == len(sheet.chords) == len(sheet),
                   c.eq(sheet.melody.start_step, sheet.chords.start_step),
@@ -295,6 +583,9 @@ def h_leadsheet(c):
       mi, xi = sheet[i]
       c.check(c.And(c.eq(m, mi), x == xi, c.eq(m, sheet.melody[i])),
               label + ': iteration agrees with indexing')
+      mn, xn = sheet[i - len(pairs)]
+      c.check(c.And(c.eq(m, mn), x == xn),
+              label + ': a negative index counts from the end')
 
   inv('initial')
   if op == 'append':
@@ -304,10 +595,18 @@ def h_leadsheet(c):
     c.check(isinstance(err, ValueError), 'invalid melody event rejected')
     c.check(len(sheet) == L, 'a rejected append adds nothing')
     inv('after a rejected append')
-    sheet.append((c.int('new', -2, 127), 'F'))
+    new = c.int('new', -2, 127)
+    sheet.append((new, 'F'))
     c.check(len(sheet) == L + 1, 'append: one more event')
     inv('append')
     c.check(sheet[L][1] == 'F', 'the appended chord is the one supplied')
+    c.check(c.eq(sheet[L][0], new),
+            'the appended melody event is the one supplied')
+    c.check(c.And([c.eq(a, b) for a, b in zip(list(sheet.melody)[:L], ev)] +
+                  [list(sheet.chords)[:L] == ch] +
+                  [c.eq(sheet.start_step, start),
+                   c.eq(sheet.end_step, start + L + 1)]),
+            'append: old events kept, start kept, end + 1')
   elif op == 'set_length':
     n = c.int('n', 0, L + 2)
     sheet.set_length(n)
@@ -316,15 +615,52 @@ def h_leadsheet(c):
     c.check(c.And([c.eq(a, b) for a, b in zip(list(sheet.melody)[:keep],
                                              ev[:keep])] or [True]),
             'set_length keeps the retained melody events')
+    nn = c.concretize(n)
+    c.check(list(sheet.chords)[:keep] == ch[:keep],
+            'set_length keeps the retained chords')
+    c.check(c.And(c.eq(sheet.start_step, start),
+                  c.eq(sheet.end_step, start + nn)),
+            'set_length keeps the start step')
+    if nn > L:
+      # chords are padded with NO_CHORD, the melody as Melody.set_length
+      # documents (end a sustained note, then NO_EVENT)
+      wm = [c.If(_sounding(c, ev), -1, -2)] + [-2] * (nn - L - 1)
+      c.check(c.And([c.eq(a, b) for a, b in zip(list(sheet.melody)[L:], wm)] +
+                    [list(sheet.chords)[L:] == ['N.C.'] * (nn - L)]),
+              'set_length pads the chords with NO_CHORD and the melody with '
+              'NO_EVENT after ending a sustained note')
     inv('set_length')
   elif op == 'resolution':
     k = c.int('k', 1, 3)
     sheet.increase_resolution(k)
-    c.check(len(sheet) == L * c.concretize(k), 'increase_resolution')
+    kk = c.concretize(k)
+    c.check(len(sheet) == L * kk, 'increase_resolution')
+    rs[0], rs[1] = spb * kk, spq * kk
     inv('increase_resolution')
+    c.check(c.And(c.eq(sheet.start_step, start * kk),
+                  c.eq(sheet.end_step, (start + L) * kk)),
+            'increase_resolution scales the step range')
+    # "uses MELODY_NO_EVENT to extend each event in the melody, and simply
+    # repeats each chord event k times"
+    wm, wc = [], []
+    for i in range(L):
+      wm += [ev[i]] + [-2] * (kk - 1)
+      wc += [ch[i]] * kk
+    c.check(c.And([c.eq(a, b) for a, b in zip(list(sheet.melody), wm)] +
+                  [list(sheet.chords) == wc]),
+            'increase_resolution: melody events extended with NO_EVENT, chords '
+            'repeated')
   elif op == 'deepcopy':
     cp = copy.deepcopy(sheet)
     c.check(cp == sheet and cp is not sheet, 'deepcopy equal')
+    c.check(c.And([c.eq(cp.start_step, start), c.eq(cp.end_step, start + L),
+                   c.eq(cp.steps_per_bar, spb),
+                   c.eq(cp.steps_per_quarter, spq), len(cp) == L,
+                   cp.melody is not sheet.melody,
+                   cp.chords is not sheet.chords] +
+                  [c.And(c.eq(m, e), x == y)
+                   for (m, x), e, y in zip(list(cp), ev, ch)]),
+            'deepcopy: same events, step range and resolution')
     # edit the copy both ways, then re-examine the ORIGINAL
     cp.append((60, 'C'))
     cp.set_length(max(L - 1, 0))
@@ -336,18 +672,98 @@ def h_leadsheet(c):
             'editing a deep copy leaves the events of the original')
   elif op == 'steps':
     c.check(len(sheet.steps) == len(sheet), 'steps lists one step per event')
+    c.check(all(bool(c.eq(s, start + i)) for i, s in enumerate(sheet.steps)),
+            'steps are consecutive from start_step')
   elif op == 'slice':
     a = c.int('a', -3, 3)
-    part = sheet[a:]
+    if c.params.get('b'):
+      b = c.int('b', -3, 3)
+      part = sheet[a:b] if c.params['b'] == 'ab' else sheet[:b]
+      sl = (slice(c.concretize(a), c.concretize(b)) if c.params['b'] == 'ab'
+            else slice(None, c.concretize(b)))
+    else:
+      part = sheet[a:]
+      sl = slice(c.concretize(a), None)
     mel, chd = (part.melody, part.chords) if hasattr(part, 'melody') else part
-    sl = slice(c.concretize(a), None)
     want = ev[sl]
     c.check(len(mel) == len(want) == len(chd), 'slice lengths')
+    c.check(c.And([c.eq(x, y) for x, y in zip(list(mel), _clean(c, want))] +
+                  [list(chd) == ch[sl]]),
+            'slice holds the sliced melody events and chords')
+    c.check(c.And(_res_kept(c, mel, spb, spq), _res_kept(c, chd, spb, spq),
+                  c.eq(len(mel), mel.end_step - mel.start_step),
+                  c.eq(len(chd), chd.end_step - chd.start_step)),
+            'slice keeps the resolution; its parts span their length')
     if want:
       first = sl.indices(L)[0]
       c.check(c.And(c.eq(mel.start_step, start + first),
                     c.eq(chd.start_step, start + first)),
               'slice carries the step offset of its first element')
+
+
+def h_leadsheet_ctor(c):
+  """LeadSheet(): the empty sheet; melody and chords that differ in length,
+  resolution or position (or only one of them) are refused."""
+  ls = c.mod('lead_sheets_lib')
+  ml = c.mod('melodies_lib')
+  cl = c.mod('chords_lib')
+  cons = c.mod('constants')
+  case = c.params['case']
+  if case == 'empty':
+    sheet = ls.LeadSheet()
+    c.check(c.And(len(sheet) == 0, c.eq(sheet.start_step, sheet.end_step),
+                  len(list(sheet)) == 0, len(sheet.steps) == 0,
+                  len(sheet.melody) == 0, len(sheet.chords) == 0),
+            'LeadSheet() is empty')
+    c.check(c.And(c.eq(sheet.steps_per_bar, sheet.chords.steps_per_bar),
+                  c.eq(sheet.steps_per_quarter,
+                       sheet.chords.steps_per_quarter),
+                  c.eq(sheet.melody.start_step, sheet.chords.start_step)),
+            'LeadSheet(): melody and chords agree')
+    s0 = sheet.start_step
+    new = c.int('new', -2, 127)
+    sheet.append((new, 'C'))
+    sheet.set_length(3)
+    c.check(c.And(len(sheet) == 3, c.eq(sheet.end_step - sheet.start_step, 3),
+                  c.eq(sheet.start_step, s0),
+                  len(sheet.melody) == 3, len(sheet.chords) == 3,
+                  c.eq(sheet.melody.end_step, sheet.chords.end_step),
+                  c.eq(sheet[0][0], new), sheet[0][1] == 'C',
+                  len(list(sheet)) == 3),
+            'LeadSheet(): append and set_length keep melody and chords aligned')
+    return
+  L = 2
+  start = c.int('start')
+  spb = c.int('spb', 1, 64)
+  spq = c.int('spq', 1, 24)
+  mel = ml.Melody([c.int('e%d' % i, -2, 127) for i in range(L)],
+                  start_step=start, steps_per_bar=spb, steps_per_quarter=spq)
+  if case == 'one':
+    chd = cl.ChordProgression(_CHORDS[:L], start_step=start, steps_per_bar=spb,
+                              steps_per_quarter=spq)
+    which = c.choice('which', ['melody', 'chords'])
+    res, err = c.raises(ls.LeadSheet, **({'melody': mel} if which == 'melody'
+                                         else {'chords': chd}))
+    c.check(isinstance(err, ls.MelodyChordsMismatchError),
+            'only one of melody and chords is refused')
+    return
+  d = c.int('d', -3, 3)
+  c.assume(d != 0)
+  Lc, s2, b2, q2 = L, start, spb, spq
+  if case == 'len':
+    Lc = c.choice('Lc', [0, 1, 3])
+  elif case == 'start':
+    s2 = start + d
+  elif case == 'spb':
+    b2 = spb + d
+  elif case == 'spq':
+    q2 = spq + d
+  chd = cl.ChordProgression([_CHORDS[i % 4] for i in range(Lc)], start_step=s2,
+                            steps_per_bar=b2, steps_per_quarter=q2)
+  res, err = c.raises(ls.LeadSheet, mel, chd)
+  c.check(isinstance(err, ls.MelodyChordsMismatchError),
+          'melody and chords that differ in length, resolution or position '
+          'are refused')
 
 
 def h_pianoroll(c):
@@ -356,22 +772,93 @@ def h_pianoroll(c):
   op = c.params['op']
   start = c.int('start', -3, 3) if op == 'steps' else c.int('start')
   evs = [(0,), (), (1, 2), (3,)][:L]
-  seq = pr.PianorollSequence(events_list=list(evs), steps_per_quarter=c.int(
-      'spq', 1, 24), start_step=start)
+  spq = c.int('spq', 1, 24)
+  sr = c.params.get('shift_range', False)
+
+  def teq(a, b):
+    return (isinstance(a, tuple) and len(a) == len(b) and
+            bool(c.And([c.eq(x, y) for x, y in zip(a, b)] or [True])))
+
+  if op == 'defaults':
+    # no event list, start_step omitted
+    start = 0
+    evs = []
+    seq = pr.PianorollSequence(steps_per_quarter=spq)
+  elif sr:
+    # events in the full pitch range, filtered to [lo, hi] and shifted by lo
+    lo, hi = c.int('lo', 0, 5), c.int('hi', 0, 5)
+    raw = [(c.int('p0', 0, 6),), (), (c.int('p1', 0, 6), c.int('p2', 0, 6)),
+           (3,)][:L]
+
+    def shifted(e):
+      return tuple(p - lo for p in e if bool(c.And(lo <= p, p <= hi)))
+
+    evs = [shifted(e) for e in raw]
+    seq = pr.PianorollSequence(events_list=list(raw), steps_per_quarter=spq,
+                               start_step=start, min_pitch=lo, max_pitch=hi,
+                               shift_range=True)
+    c.check(len(seq) == L and all(teq(x, y) for x, y in zip(list(seq), evs)),
+            'shift_range: events filtered to the pitch window and shifted by '
+            'min_pitch')
+    c.cover('shift_range drops a pitch', L > 0 and len(evs[0]) == 0)
+  else:
+    seq = pr.PianorollSequence(events_list=list(evs), steps_per_quarter=spq,
+                               start_step=start)
 
   def inv(label):
     c.check(c.And(c.eq(seq.end_step - seq.start_step, len(seq)),
                   seq.num_steps == len(seq), len(list(seq)) == len(seq),
                   c.eq(seq.start_step, start)),
             label + ': invariant (len == end-start == num_steps)')
-    for i, e in enumerate(list(seq)):
+    c.check(c.eq(seq.steps_per_quarter, spq),
+            label + ': steps_per_quarter as constructed')
+    lst = list(seq)
+    for i, e in enumerate(lst):
       c.check(seq[i] == e, label + ': indexing agrees with iteration')
+      c.check(seq[i - len(lst)] == e,
+              label + ': a negative index counts from the end')
 
   inv('initial')
-  if op == 'append':
+  if op == 'defaults':
+    c.check(c.And(len(seq) == 0, c.eq(seq.start_step, 0),
+                  c.eq(seq.end_step, 0), len(seq.steps) == 0),
+            'a pianoroll without events is empty at step 0')
+    seq.append((5,))
+    seq.set_length(3)
+    c.check(c.And(len(seq) == 3, c.eq(seq.end_step, 3),
+                  seq.steps == [0, 1, 2]) and
+            list(seq) == [(5,), (), ()], 'defaults: append and set_length')
+    inv('defaults')
+  elif op == 'append' and sr:
+    q = (c.int('q0', 0, 6), c.int('q1', 0, 6))
+    seq.append(q, shift_range=True)
+    c.check(len(seq) == L + 1 and teq(seq[L], shifted(q)),
+            'append(shift_range=True) filters and shifts the event')
+    seq.append(q)
+    c.check(len(seq) == L + 2 and teq(seq[L + 1], q),
+            'append without shift_range stores the event as given')
+    c.check(all(teq(x, y) for x, y in zip(list(seq)[:L], evs)),
+            'append keeps the old events')
+    inv('append')
+  elif op == 'append':
     seq.append((5,))
     c.check(len(seq) == L + 1 and seq[L] == (5,), 'append')
+    c.check(list(seq)[:L] == list(evs), 'append keeps the old events')
     inv('append')
+  elif op == 'from_left':
+    # from_left is not supported: either refused (NotImplementedError, nothing
+    # changed) or done properly - never a silent edit of the wrong side
+    n = c.int('n', 0, L + 2)
+    res, err = c.raises(seq.set_length, n, from_left=True)
+    nn = c.concretize(n)
+    if err is not None:
+      c.check(isinstance(err, NotImplementedError) and list(seq) == list(evs),
+              'set_length(from_left=True) is refused and changes nothing')
+    else:
+      keep = min(nn, L)
+      c.check(len(seq) == nn and
+              list(seq)[nn - keep:] == list(evs)[L - keep:],
+              'set_length(from_left=True) keeps the right side')
   elif op == 'set_length':
     n = c.int('n', 0, L + 2)
     seq.set_length(n)
@@ -383,9 +870,15 @@ def h_pianoroll(c):
     inv('set_length')
   elif op == 'steps':
     c.check(len(seq.steps) == len(seq), 'steps lists one step per event')
+    c.check(all(bool(c.eq(s, start + i)) for i, s in enumerate(seq.steps)),
+            'steps are consecutive from start_step')
   elif op == 'deepcopy':
     cp = copy.deepcopy(seq)
     before = list(seq)
+    c.check(c.And(cp is not seq, len(cp) == L, list(cp) == before,
+                  c.eq(cp.start_step, start), c.eq(cp.end_step, start + L),
+                  c.eq(cp.steps_per_quarter, spq), cp.num_steps == L),
+            'deepcopy: same events, step range and resolution')
     cp.append(())
     cp.set_length(max(L - 1, 0))
     cp.append((60,))
@@ -397,15 +890,45 @@ def _mk_perf(c, L, metric):
   PE = pl.PerformanceEvent
   ms = c.int('ms', 1, 1000)
   start = c.int('start')
+  # what the accessors of the performance must report
+  at = c.perf_attrs = {'ms': ms, 'program': None, 'is_drum': None}
+  kw = {}
+  if c.params.get('attrs'):
+    # program / is_drum given: stored, and untouched by any edit
+    at['program'] = kw['program'] = c.int('prog', 0, 127)
+    at['is_drum'] = kw['is_drum'] = c.bool('drum')
+  how = c.params.get('how')
   if metric:
     # MetricPerformance derives its shift limit from steps_per_quarter
-    spq = c.int('spq', 1, 24)
-    perf = pl.MetricPerformance(steps_per_quarter=spq, start_step=start,
-                                num_velocity_bins=8, max_shift_quarters=4)
-    c.assume(c.eq(ms, 4 * spq))
+    spq = at['spq'] = c.int('spq', 1, 24)
+    if how == 'defaults':
+      # start_step, max_shift_quarters (and the velocity bins) omitted
+      perf = pl.MetricPerformance(steps_per_quarter=spq, **kw)
+      c.assume(c.eq(start, 0))
+      c.assume(c.eq(ms, pl.DEFAULT_MAX_SHIFT_QUARTERS * spq))
+    elif how == 'msq':
+      # a limit other than the default number of quarters
+      msq = c.int('msq', 1, 8)
+      perf = pl.MetricPerformance(steps_per_quarter=spq, start_step=start,
+                                  num_velocity_bins=8, max_shift_quarters=msq,
+                                  **kw)
+      c.assume(c.eq(ms, msq * spq))
+      c.cover('shift limit other than 4 quarters', c.Not(c.eq(msq, 4)))
+    else:
+      perf = pl.MetricPerformance(steps_per_quarter=spq, start_step=start,
+                                  num_velocity_bins=8, max_shift_quarters=4,
+                                  **kw)
+      c.assume(c.eq(ms, 4 * spq))
+  elif how == 'defaults':
+    # start_step and max_shift_steps (and the velocity bins) omitted
+    at['sps'] = sps = c.int('sps', 1, 200)
+    perf = pl.Performance(steps_per_second=sps, **kw)
+    c.assume(c.eq(start, 0))
+    c.assume(c.eq(ms, pl.DEFAULT_MAX_SHIFT_STEPS))
   else:
+    at['sps'] = 100
     perf = pl.Performance(steps_per_second=100, start_step=start,
-                          num_velocity_bins=8, max_shift_steps=ms)
+                          num_velocity_bins=8, max_shift_steps=ms, **kw)
   evs = []
   for i in range(L):
     ty = c.params['types'][i]
@@ -421,6 +944,12 @@ def _mk_perf(c, L, metric):
   return pl, PE, perf, evs, ms, start
 
 
+def _same(c, got, want):
+  if want is None or got is None:
+    return got is None and want is None
+  return c.eq(got, want)
+
+
 def _perf_inv(c, PE, perf, start, label):
   evs = list(perf)
   total = c.Sum([e.event_value for e in evs if e.event_type == PE.TIME_SHIFT])
@@ -428,6 +957,15 @@ def _perf_inv(c, PE, perf, start, label):
                 c.eq(perf.end_step - perf.start_step, total),
                 c.eq(perf.start_step, start), len(evs) == len(perf)),
           label + ': invariant (num_steps == sum of shifts == end-start)')
+  at = getattr(c, 'perf_attrs', None)
+  if at is not None:
+    c.check(c.And(c.eq(perf.max_shift_steps, at['ms']),
+                  (c.eq(perf.steps_per_quarter, at['spq']) if 'spq' in at else
+                   c.eq(perf.steps_per_second, at['sps'])),
+                  _same(c, perf.program, at['program']),
+                  _same(c, perf.is_drum, at['is_drum'])),
+            label + ': shift limit, resolution, program and drum flag as '
+            'constructed')
   st = perf.steps
   c.check(len(st) == len(evs), label + ': steps has one entry per event')
   conds = []
@@ -435,6 +973,9 @@ def _perf_inv(c, PE, perf, start, label):
   for i, e in enumerate(evs):
     conds.append(c.eq(st[i], acc))
     conds.append(c.eq(perf[i].event_value, e.event_value))
+    conds.append(c.eq(perf[i].event_type, e.event_type))
+    conds.append(c.eq(perf[i - len(evs)].event_value, e.event_value))
+    conds.append(c.eq(perf[i - len(evs)].event_type, e.event_type))
     if e.event_type == PE.TIME_SHIFT:
       acc = acc + e.event_value
   c.check(c.And(conds or [True]),
@@ -448,6 +989,23 @@ def h_perf_set_length(c):
   cur = perf.num_steps
   n = c.int('n', 0, 10000)
   c.assume(n <= cur + 3 * ms)
+  if c.params.get('from_left'):
+    # from_left is not supported: either refused (NotImplementedError, nothing
+    # changed) or n steps with the start of the performance given up - never a
+    # silent edit of the right side
+    res, err = c.raises(perf.set_length, n, from_left=True)
+    now = list(perf)
+    if err is not None:
+      c.check(isinstance(err, NotImplementedError) and len(now) == L and
+              bool(c.And([c.And(c.eq(e.event_type, t), c.eq(e.event_value, v))
+                          for e, (t, v) in zip(now, evs)] or [True])),
+              'set_length(from_left=True) is refused and changes nothing')
+      _perf_inv(c, PE, perf, start, 'refused set_length')
+    else:
+      c.check(c.And(c.eq(perf.num_steps, n),
+                    c.eq(perf.end_step, start + cur)),
+              'set_length(from_left=True) keeps the end step')
+    return
   perf.set_length(n)
   _perf_inv(c, PE, perf, start, 'set_length')
   c.check(c.eq(perf.num_steps, n), 'set_length(n) yields exactly n steps')
@@ -485,7 +1043,7 @@ def h_perf_set_length(c):
 
 def h_perf_edit(c):
   L = c.params['L']
-  pl, PE, perf, evs, ms, start = _mk_perf(c, L, False)
+  pl, PE, perf, evs, ms, start = _mk_perf(c, L, c.params.get('metric', False))
   op = c.params['op']
   if op == 'append':
     e = PE(PE.TIME_SHIFT, c.int('new', 0, 3000))
@@ -503,13 +1061,95 @@ def h_perf_edit(c):
     _perf_inv(c, PE, perf, start, 'truncate')
     for i, e in enumerate(list(perf)):
       c.check(c.eq(e.event_value, evs[i][1]), 'truncate keeps a prefix')
+      c.check(c.eq(e.event_type, evs[i][0]),
+              'truncate keeps a prefix (event types too)')
   elif op == 'deepcopy':
     cp = copy.deepcopy(perf)
+    c.check(cp is not perf and type(cp) is type(perf) and len(cp) == L and
+            bool(c.And([c.And(c.eq(e.event_type, t), c.eq(e.event_value, v))
+                        for e, (t, v) in zip(list(cp), evs)] or [True])),
+            'deepcopy: same events')
+    _perf_inv(c, PE, cp, start, 'the deep copy')
     cp.append(PE(PE.TIME_SHIFT, 1))
     cp.truncate(max(L - 1, 0))
     cp.append(PE(PE.NOTE_ON, 60))
     c.check(len(perf) == L, 'deepcopy independent')
     _perf_inv(c, PE, perf, start, 'deepcopy')
+
+
+def h_note_perf(c):
+  """NotePerformance: events are (TIME_SHIFT, NOTE_ON, VELOCITY, DURATION)
+  tuples; each event sits at the running sum of the shifts up to and including
+  its own."""
+  pl = c.mod('performance_lib')
+  PE = pl.PerformanceEvent
+  L, op = c.params['L'], c.params['op']
+  start = c.int('start')
+  ns = c.pb.NoteSequence()
+  ns.quantization_info.steps_per_second = 100
+  perf = pl.NotePerformance(ns, num_velocity_bins=8, instrument=0,
+                            start_step=start)
+  c.check(c.And(len(perf) == 0, c.eq(perf.start_step, start),
+                c.eq(perf.end_step, start), c.eq(perf.num_steps, 0),
+                len(perf.steps) == 0),
+          'a NotePerformance of an empty sequence is empty at its start step')
+
+  def mk(i):
+    return (PE(PE.TIME_SHIFT, c.int('s%d' % i, 0, 1000)),
+            PE(PE.NOTE_ON, c.int('p%d' % i, 0, 127)),
+            PE(PE.VELOCITY, c.int('v%d' % i, 1, 8)),
+            PE(PE.DURATION, c.int('d%d' % i, 1, 1000)))
+
+  evs = [mk(i) for i in range(L)]
+  for e in evs:
+    perf.append(e)
+
+  def inv(label, want):
+    lst = list(perf)
+    c.check(len(lst) == len(perf) == len(want) and
+            all(perf[i] is lst[i] and perf[i - len(lst)] is lst[i]
+                for i in range(len(lst))),
+            label + ': iteration, indexing and len agree')
+    c.check(c.And([c.eq(x.event_value, y.event_value)
+                   for a, b in zip(lst, want) for x, y in zip(a, b)] +
+                  [len(a) == 4 for a in lst]),
+            label + ': holds exactly the expected event tuples')
+    c.check(c.And(c.eq(perf.start_step, start),
+                  c.eq(perf.end_step - perf.start_step, perf.num_steps)),
+            label + ': num_steps == end_step - start_step')
+    st = perf.steps
+    c.check(len(st) == len(lst), label + ': steps has one entry per event')
+    acc, conds = start, []
+    for i, e in enumerate(want):
+      acc = acc + e[0].event_value
+      conds += [c.eq(st[i], acc), st[i] >= perf.start_step,
+                st[i] <= perf.end_step]
+    c.check(c.And(conds or [True]),
+            label + ': each event sits at the running sum of the shifts, '
+            'inside start_step..end_step')
+
+  inv('built by append', evs)
+  if op == 'append':
+    bad = c.choice('bad', [PE(PE.NOTE_ON, 60), [1, 2, 3, 4], 5])
+    res, err = c.raises(perf.append, bad)
+    c.check(isinstance(err, ValueError), 'append rejects a non-tuple')
+    inv('rejected append', evs)
+  elif op == 'truncate':
+    n = c.int('n', 0, L + 1)
+    perf.truncate(n)
+    nn = c.concretize(n)
+    c.check(len(perf) == min(nn, L), 'truncate keeps the first n events')
+    inv('truncate', evs[:nn])
+  elif op == 'deepcopy':
+    cp = copy.deepcopy(perf)
+    c.check(cp is not perf and len(cp) == L and
+            bool(c.And(c.eq(cp.start_step, start),
+                       c.eq(cp.num_steps, perf.num_steps))),
+            'deepcopy: same length and step range')
+    cp.append(mk(9))
+    cp.truncate(max(L - 1, 0))
+    cp.append(mk(8))
+    inv('after editing a deep copy', evs)
 
 
 HARNESSES = {
@@ -520,10 +1160,15 @@ HARNESSES = {
     'h_resolution': h_resolution,
     'h_deepcopy': h_deepcopy,
     'h_steps': h_steps,
+    'h_defaults': h_defaults,
+    'h_reinit': h_reinit,
+    'h_reject': h_reject,
     'h_leadsheet': h_leadsheet,
+    'h_leadsheet_ctor': h_leadsheet_ctor,
     'h_pianoroll': h_pianoroll,
     'h_perf_set_length': h_perf_set_length,
     'h_perf_edit': h_perf_edit,
+    'h_note_perf': h_note_perf,
 }
 
 
@@ -556,13 +1201,49 @@ def jobs(tier):
       add('h_append', kind=kind, L=L, built=True)
       add('h_set_length', kind=kind, L=L, from_left=True, built=True)
       add('h_steps', kind=kind, L=L, from_left=False, built=True)
+    # ... which for a melody includes states starting with a note-off
+    add('h_set_length', kind=kind, L=2, from_left=False, built=True)
+    add('h_deepcopy', kind=kind, L=2, built=True)
+    add('h_slice', kind=kind, L=2, a=True, b=True, built=True, budget=600)
+    add('h_resolution', kind=kind, L=2, built=True)
+    # from_left omitted; L=2 grid point for the padding rule
+    add('h_set_length', kind=kind, L=Ls[-1], from_left=False, omit_kw=True)
+    if not deep:
+      add('h_set_length', kind=kind, L=2, from_left=False)
+    # strided slices
+    for st in (2, -1):
+      add('h_slice', kind=kind, L=3, a=True, b=True, step=st, budget=600)
+    # steps after the other edits
+    for op in ('append', 'resolution', 'slice'):
+      add('h_steps', kind=kind, L=2, from_left=False, op=op)
+    # omitted keyword arguments, re-initialisation
+    for given in (False, True):
+      add('h_defaults', kind=kind, L=2, events=given)
+    add('h_reinit', kind=kind, L=2, L2=0, how='reset')
+    for L2 in (0, 3):
+      add('h_reinit', kind=kind, L=2, L2=L2, how='kw')
+      add('h_reinit', kind=kind, L=1, L2=L2, how='default')
+    if kind in ('melody', 'drums'):
+      for L in (0, 2):
+        add('h_reject', kind=kind, L=L)
+  add('h_resolution', kind='simple', L=2, fill=True)
   for op in ('append', 'set_length', 'resolution', 'deepcopy', 'steps',
              'slice'):
     for L in (0, 2) if not deep else (0, 1, 2, 3):
       add('h_leadsheet', op=op, L=L)
+  for b in ('ab', 'b'):
+    for L in (2,) if not deep else (2, 3):
+      add('h_leadsheet', op='slice', L=L, b=b)
+  for case in ('empty', 'one', 'len', 'start', 'spb', 'spq'):
+    add('h_leadsheet_ctor', case=case)
   for op in ('append', 'set_length', 'steps', 'deepcopy'):
     for L in (0, 2) if not deep else (0, 1, 2, 4):
       add('h_pianoroll', op=op, L=L)
+  add('h_pianoroll', op='defaults', L=0)
+  for L in (0, 2):
+    add('h_pianoroll', op='from_left', L=L)
+  for op in ('append', 'set_length'):
+    add('h_pianoroll', op=op, L=1 if not deep else 3, shift_range=True)
   # performances: event kinds are concrete per job, values symbolic
   combos = [[], [3], [1], [1, 3], [3, 3], [3, 2], [3, 3, 3], [3, 1, 3]]
   if deep:
@@ -572,4 +1253,27 @@ def jobs(tier):
     for op in ('append', 'truncate', 'deepcopy'):
       add('h_perf_edit', L=len(types), types=types, op=op)
   add('h_perf_set_length', L=2, types=[1, 3], metric=True, budget=900)
+  # velocity events in the pre-state
+  for types in ([4, 3], [3, 4]) if not deep else ():
+    add('h_perf_set_length', L=2, types=types, budget=900)
+    add('h_perf_edit', L=2, types=types, op='truncate')
+  # keyword arguments: omitted (defaults in force), non-default quarters,
+  # program / is_drum; MetricPerformance under every edit; from_left
+  for metric in (False, True):
+    for types in ([], [1, 3], [3, 2]):
+      add('h_perf_set_length', L=len(types), types=types, metric=metric,
+          how='defaults', attrs=True, budget=900)
+      add('h_perf_set_length', L=len(types), types=types, metric=metric,
+          from_left=True, budget=900)
+    for op in ('append', 'truncate', 'deepcopy'):
+      add('h_perf_edit', L=2, types=[3, 1], op=op, metric=metric,
+          how='defaults', attrs=True)
+      add('h_perf_edit', L=2, types=[3, 1], op=op, metric=True,
+          how='msq' if metric else None)
+  for types in ([], [1, 3], [3, 3]):
+    add('h_perf_set_length', L=len(types), types=types, metric=True,
+        how='msq', budget=900)
+  for op in ('append', 'truncate', 'deepcopy'):
+    for L in (0, 2) if not deep else (0, 1, 2, 3):
+      add('h_note_perf', op=op, L=L)
   return J
